@@ -124,6 +124,25 @@ def _var_case(rng, i):
     return x, dims, c, keepdim
 
 
+def gen_prims_var(rng, n):
+    """prims.var(inp, dims, correction): dims are plain non-negative indices; [] = every dimension"""
+    for i in range(n):
+        k = i % 12
+        sh = rand_shape(rng, allow_zero=False)
+        if k == 7 and sh:
+            sh[rng.randrange(len(sh))] = 0
+        if not sh or k == 5:
+            dims = []
+        elif k in (0, 1):
+            dims = list(range(len(sh)))
+            rng.shuffle(dims)
+        else:
+            dims = [d % len(sh) for d in (_dim_list(rng, len(sh)) or [rng.randrange(len(sh))])]
+        cnt = numel([sh[d] for d in dims]) if dims else numel(sh)
+        c = [1.0, 0.0, 1.0, float(cnt), float(cnt + 1), 1.0, -1.0, 1.0, 0.5, 2.0, 0.0, float(max(cnt - 1, 0))][k]
+        yield [tensor(rng, sh, "float32", kind="rand"), dims, c], {}
+
+
 def gen_var_correction(rng, n):
     for i in range(n):
         x, dims, c, keepdim = _var_case(rng, i)
